@@ -11,7 +11,7 @@ use std::io::Read;
 #[derive(Debug, Clone, Serialize, Deserialize)]
 pub enum Op {
     Update { n: u32 },
-    /// hint: 0 exact, 1 (0, None), 2 (0, Some(too small)), 3 (too large, None)
+    /// hint: 0 exact, 1 (0, None), 2 (0, Some(overstated)), 3 (understated lower, overstated upper)
     UpdateIter { n: u32, hint: u8 },
     UpdateByte,
     AddSlice { n: u32 },
@@ -37,9 +37,9 @@ pub struct Case {
     pub zero_prefix: u64,
 }
 
-struct HintIter<'a> {
-    inner: std::slice::Iter<'a, u8>,
-    hint: u8,
+pub struct HintIter<'a> {
+    pub inner: std::slice::Iter<'a, u8>,
+    pub hint: u8,
 }
 impl Iterator for HintIter<'_> {
     type Item = u8;
@@ -48,11 +48,12 @@ impl Iterator for HintIter<'_> {
     }
     fn size_hint(&self) -> (usize, Option<usize>) {
         let n = self.inner.len();
+        // only hints an iterator may legally give: lower bound <= remaining <= upper bound
         match self.hint {
             0 => (n, Some(n)),
             1 => (0, None),
-            2 => (0, Some(n / 2)),
-            _ => (n.saturating_mul(3) + 5, None),
+            2 => (0, Some(n.saturating_mul(2) + 3)),
+            _ => (n / 2, Some(n + 10)),
         }
     }
 }
